@@ -8,6 +8,7 @@ evaluates Expected.  The parser side: tokens(d+) must be tokens(d) with position
 and in fix mode the pragma line must survive unchanged."""
 import io
 import os
+import zlib
 import random
 
 from .. import corpus, docgen, impl, obs, runs, tlc, tracev
@@ -206,6 +207,33 @@ def _shape(lines, k):
     return "%s|%s" % (cls(prev) if k >= 2 else "start", cls(nxt) if k - 1 < len(lines) else "end")
 
 
+def _cross_file(job):
+    """scan / fix  [copy with pragmas, the document]  in one invocation: what is said about / done to the second file must equal its solo run"""
+    from .. import obs as obsmod, runs
+    name, data = job
+    solo = runs.execute([("b_doc.md", data)], ["scan", "b_doc.md"], keep_contents=False)
+    if solo["exc"] or solo["code"] not in (0, 1):
+        return None
+    fails = [f for f in obsmod.parse_failures(solo["out"])]
+    rules = sorted({f[3] for f in fails})
+    if not rules:
+        return None
+    head = ("<!-- pyml disable-num-lines 500 %s-->\n<!-- pyml disable-next-line no-such-rule-->\n" % ",".join(r.lower() for r in rules)).encode()
+    plus = head + data
+    out = {}
+    both = runs.execute([("a_plus.md", plus), ("b_doc.md", data)], ["scan", "a_plus.md", "b_doc.md"], keep_contents=False)
+    got = sorted(l for l in both["out"].splitlines() if l.startswith("b_doc.md:"))
+    want = sorted(l for l in solo["out"].splitlines() if l.startswith("b_doc.md:"))
+    if got != want:
+        out["scan"] = {"solo": want[:8], "after_pragma_file": got[:8]}
+    fsolo = runs.execute([("b_doc.md", data)], ["fix", "b_doc.md"])
+    fboth = runs.execute([("a_plus.md", plus), ("b_doc.md", data)], ["fix", "a_plus.md", "b_doc.md"])
+    if fsolo["code"] in (0, 3) and fboth["code"] in (0, 3) and fsolo["contents"].get("b_doc.md") != fboth["contents"].get("b_doc.md"):
+        out["fix"] = {"solo": (fsolo["contents"].get("b_doc.md") or b"")[:300].decode("utf-8", "replace"),
+                      "after_pragma_file": (fboth["contents"].get("b_doc.md") or b"")[:300].decode("utf-8", "replace")}
+    return out or {"ok": True}
+
+
 def run(pid, tier):
     ctx = Ctx(pid, tier, "model_checking")
     r = tlc.run("mc/MC_Pragma", "MC_Pragma.cfg")
@@ -246,6 +274,18 @@ def run(pid, tier):
                               {"document": name, "k": rec["k"], "pragma": rec["pragma"], "detail": rec["fix_moved_pragma"]})
             traces.append([{"base": rec["base"], "pragmas": rec["pragmas"], "observed": rec["observed"], "errors": rec["errors"]}])
             meta.append((name, rec, where, text))
+    # ---- a pragma belongs to its file: the same document, scanned / fixed right after a copy that carries pragmas naming its rules
+    cj = [(name, data) for name, data in docs if name.startswith(("family/", "extra/")) or zlib.crc32(name.encode()) % (4 if tier == "quick" else 1) == 0]
+    cres = impl.pmap(_cross_file, cj, procs=16, chunksize=2)
+    ncross = 0
+    for (name, _d), o in zip(cj, cres):
+        if not o:
+            continue
+        ncross += 1
+        for mode in ("scan", "fix"):
+            if o.get(mode):
+                ctx.violation("pragma-of-another-file-acts:%s :: %s" % (mode, name), dict(o[mode], document=name))
+    ctx.ev.parts["cross_file_pairs"] = ncross
     tr_, verdicts = tracev.validate("trace/Trace_Pragma", "Trace_Pragma.cfg", traces, "c11")
     ctx.ev.add_tlc("Trace_Pragma (%d insertions)" % len(traces), tr_)
     ctx.ev.cov["traces_validated_against_impl"] = len(traces)
